@@ -167,10 +167,14 @@ func c18GenCase(r *vc.Rand, idx int, prefix string, onlyCare bool) *atCase {
 		}
 		st = atStmt{Kind: "delete", Table: t.Name, SQL: sql, Args: wargs, Feat: map[string]string{"stmt": "delete", "where": strings.Join(sortedKeys(ops), "+"), "limit": lim}}
 	case kind < 8: // INSERT single/multi rows, literals/params/NULL
-		st = atGenInsert(r, t, atStmtOpts{params: params}, 1+r.Intn(4), &seq)
+		st = atGenInsert(r, t, atStmtOpts{params: params, shuffleCols: r.Bool()}, 1+r.Intn(4), &seq)
 		st.Feat["where"] = ""
 	case kind < 9:
-		st = atGenUpsert(r, t, atStmtOpts{params: params}, r.Bool(), &seq)
+		if r.Intn(3) == 0 {
+			st = atGenUpsertMulti(r, t, atStmtOpts{params: params}, &seq)
+		} else {
+			st = atGenUpsert(r, t, atStmtOpts{params: params}, r.Bool(), &seq)
+		}
 		st.Feat["where"] = ""
 	default: // an UPDATE that changes the primary key: must be rejected
 		first := t.Def.Cols[t.Def.PK[0]]
